@@ -77,6 +77,9 @@ func runC03(r *core.Run) {
 	// instead of one fresh process per command; library configurations only
 	a.Persist = !cfg.ViaCLI && r.Chance(40, "long-lived-process?")
 	vcs := seams.NewSimVCS(r, "/release")
+	// the repository may keep the very slices it was handed (see C13): what it holds is still what
+	// each run emitted
+	vcs.Retain = r.Chance(35, "retaining-back-end?")
 	scratch := ""
 	nOps := 3 + r.Intn(8, "ops")
 	bootCN := []string{"", "signer-c"}[r.Intn(2, "boot-cn")]
@@ -141,6 +144,13 @@ func runC03(r *core.Run) {
 			}
 			q := Req{Image: img, OutDir: "endorsements", Candidate: fmt.Sprintf("cand%d", len(all)), SNP: true, Timestamp: a.Now.Add(-time.Duration(r.Intn(3600, "doc-age-s")) * time.Second),
 				Retries: 1, ViaCLI: cfg.ViaCLI && r.Bool("endorse-via-cli")}
+			if !q.ViaCLI && r.Chance(12, "odd-document-date?") {
+				// the document date is the request's to choose (library path): left unset, before
+				// 1970 with a fraction of a second, or centuries ahead. It plays no part in what the
+				// verifier has to accept.
+				q.Timestamp = []time.Time{{}, time.Unix(-1, 500_000_000).UTC(), time.Date(1969, 7, 20, 20, 17, 40, 250_000_000, time.UTC), time.Date(2300, 1, 1, 0, 0, 0, 0, time.UTC), time.Date(1600, 1, 1, 0, 0, 0, 1, time.UTC)}[r.Intn(5, "odd-document-date")]
+				r.Probe("odd-document-date")
+			}
 			if r.Bool("provenance-commit") {
 				n := 20
 				if !q.ViaCLI {
